@@ -145,6 +145,11 @@ pub fn gen_foreign(rng: &mut Rng, plan: &PlanA, events: u32) -> Foreign {
 }
 
 fn gen_mutation(rng: &mut Rng, raw_bias: bool) -> Mutation {
+    if rng.chance(1, 10) {
+        // alterations that cancel under a folding comparison: the same mask in two bytes (adjacent, or anywhere), a swap
+        let gap = if rng.chance(1, 2) { 0 } else { rng.u32() as u16 };
+        return if rng.chance(2, 3) { Mutation::Xor2 { pos: rng.u32(), gap, mask: *rng.pick(&[1u8, 0x80, 0xff, 0x10]) } } else { Mutation::Swap { pos: rng.u32(), gap } };
+    }
     let w: [u32; 6] = if raw_bias { [4, 3, 3, 3, 2, 3] } else { [3, 2, 1, 1, 5, 1] };
     match rng.weighted(&w) {
         0 => Mutation::Flip { pos: rng.u32(), bit: rng.below(8) as u8 },
